@@ -33,6 +33,14 @@ def table(rng, zkey, f, vin, imax, dims=None):
     else:
         vis = [_r(abs(vin), 4)]
     z = [[_r(f(io, vi), 5) for io in ios] for vi in vis]
+    if zkey == "vdrop":
+        # a drop may be written with a minus sign (whole table, or single entries): the magnitude counts
+        r = rng.random()
+        if r < 0.12:
+            z = [[-x for x in row] for row in z]
+        elif r < 0.22:
+            i, j = rng.randrange(len(z)), rng.randrange(len(z[0]))
+            z[i][j] = -z[i][j]
     return {"vi": vis, "io": ios, zkey: z}
 
 
